@@ -401,6 +401,15 @@ pure func archCPU(s string) string { dash1(s) < 0 ? s : (dash2(s) < 0 ? s[dash1(
 // rendering an architecture is the inverse of parsing it (C05): for every triple with non-empty parts whose ABI and OS
 // contain no dash - what parsing an architecture name gives - the rendered name parses back to the same triple, so a
 // wildcard is neither widened nor narrowed
+// ---------- C05: what the renderers write (the clauses a second parse has to find again) ----------
+
+// a version constraint is always rendered, operator and number, also when the number is empty
+func VersionRelation.String
+  ensures result == "(" ++ version.Operator ++ " " ++ version.Number ++ ")"
+
+func Stage.String
+  ensures result == (stage.Not ? "!" ++ stage.Name : stage.Name)
+
 // the two dashed forms, once and for all: where the dashes are and what lies between them
 lemma render2(o string, c string)
   requires dash1(o) < 0 && dash1(c) < 0
@@ -489,7 +498,7 @@ property C04: (*Dependency).UnmarshalControl, lemma cat_extend, (*input).Peek, (
   parsePossibilityArch, parsePossibilityArchs, parsePossibilityStage, parsePossibilityStageSet, parsePossibilityControllers,
   parseMultiarch, parseSubstvar, parsePossibility, parseRelation, parseDependency, Parse
 
-property C05: parsePossibilityStage, parsePossibilityStageSet, lemma idx_least, lemma idx_is, lemma idx_none, lemma render2, lemma render3, Arch.String[rt], parseArchInto, ParseArch, (*Arch).UnmarshalControl
+property C05: VersionRelation.String, Stage.String, parsePossibilityStage, parsePossibilityStageSet, lemma idx_least, lemma idx_is, lemma idx_none, lemma render2, lemma render3, Arch.String[rt], parseArchInto, ParseArch, (*Arch).UnmarshalControl
 
 // C19 rests on the selection proved for C06: per relation, the first alternative applicable to the architecture
 property C19: (*Dependency).GetPossibilities[deb], lemma cnt_mono, lemma cnt_lt, (*ArchSet).Matches[deb], (*Arch).Is[deb]
